@@ -126,6 +126,26 @@ def peg_rule(args):
     except RecursionError:
         return ['ERR', 'Recursion']
 
+def peg_api_seq(args):
+    """(text, [root, ...]) -> one result per root, as peg_rule, but through the public entry point parse_with_failure on ONE
+    AkomaNtosoParser object, the same pre-parsed text parsed with several roots in a row (whole-input matches only)"""
+    import sys
+    text, roots = args
+    from bluebell.parser import AkomaNtosoParser, ParseError
+    from cobalt import FrbrUri
+    sys.setrecursionlimit(20000)
+    p = AkomaNtosoParser(FrbrUri.parse('/akn/za/act/2009/10'))
+    out = []
+    for r in roots:
+        try:
+            t = p.parse_with_failure(text, r)
+            out.append(['OK', len(text), dump_tree(t)])
+        except ParseError:
+            out.append(['FAIL'])
+        except RecursionError:
+            out.append(['ERR', 'Recursion'])
+    return out
+
 def collapse_runs(t):
     """children of an unlabelled, untyped node that are all childless untyped leaves are compared by span only"""
     off, ln, types, labels, kids = t
